@@ -3,10 +3,12 @@ package props
 import (
 	"bytes"
 	"context"
+	"errors"
 	"fmt"
 	"math/rand"
 	"sort"
 	"sync"
+	"sync/atomic"
 	"time"
 
 	proto "github.com/kubewharf/kubebrain-client/api/v2rpc"
@@ -29,7 +31,7 @@ func init() {
 		Plan: func(tier string) Plan {
 			return Plan{Level: "exploration", NCases: pick(tier, 240, 40000), Batch: 4, CaseTimeout: 120,
 				Rule: "one case = one PRNG sequential history (C03 generator) on an engine whose partitioning is controlled: memkv/Badger behind a GetPartitions override returning 1-6 shuffled pieces whose borders are stored index/version records or well-formed internal keys of arbitrary (raw key, revision); the TiKV mock pre-split into regions at such keys. " +
-					"For 4-8 read revisions: unlimited List, Count, ListByStream over the whole interval, GetPartitions + one ListByStream per advertised piece (concatenated), and the etcd negative-revision watch are compared with the reference snapshot; every data batch must name the read revision and each stream must end with exactly one terminator, last. " +
+					"For 4-8 read revisions: unlimited List, Count, ListByStream over the whole interval, GetPartitions + one ListByStream per advertised piece (concatenated), and the etcd negative-revision watch are compared with the reference snapshot; every data batch must name the read revision and each stream must end with exactly one terminator, last; every 5th case ends with two whole-interval streams during which one partition worker's iterator answers a single transient error (the scanner retries that partition): a cleanly terminated stream must still carry each key once. " +
 					"non-trivial = >=1 border strictly inside one key's versions (between its index record and its newest version) and >=2 pieces; distinct by (engine, border vector, history outcome vector)",
 				Assumptions: []string{"TiKV regions are those of the in-process mock cluster, pre-split before the history runs"},
 				MinConcl:    pick(tier, 200, 34000)}
@@ -172,6 +174,8 @@ func runC13(c *harness.Case) {
 		return
 	}
 	defer eng.Close()
+	iw := harness.NewWrap(kv) // iterator faults for the last part of every 5th case
+	kv = iw
 	var rm *harness.RecMetrics
 	if harness.IsMetricsKind(kind) {
 		rm = harness.NewRecMetrics(true)
@@ -412,6 +416,43 @@ func runC13(c *harness.Case) {
 			return
 		}
 		c.Stat("reads_compared", 1)
+	}
+	if c.Index%5 == 3 {
+		// one partition worker's iterator answers a single transient error at a PRNG-drawn step; the scanner retries
+		// that partition after its backoff. A stream that still ends with a clean terminator must carry every key of
+		// the snapshot exactly once.
+		recs, derr := harness.Dump(eng.KV, encS, encE)
+		R := n.Committed()
+		want := s.m.Snapshot(full, fullEnd, R)
+		for trial := 0; trial < 2 && derr == nil && len(recs) > 2; trial++ {
+			N := 1 + r.Intn(len(recs))
+			var fired int32
+			iw.IterFault = func(start, end []byte, k int) error {
+				if k == N && atomic.CompareAndSwapInt32(&fired, 0, 1) {
+					return errors.New("injected transient iterator error")
+				}
+				return nil
+			}
+			batches, err := streamAll(n, encS, encE, R)
+			iw.IterFault = nil
+			failed := err != nil
+			for _, b := range batches {
+				if b != nil && b.Err != "" {
+					failed = true
+				}
+			}
+			if failed {
+				c.Stat("streams_failed_by_the_transient_iterator_error", 1)
+				continue
+			}
+			kvs, ok := checkStream("ListByStream(whole interval, one transient iterator error)", R, batches)
+			if !ok || !sameSet("ListByStream-whole-after-transient-iterator-error", R, want, kvs) {
+				return
+			}
+			if atomic.LoadInt32(&fired) == 1 {
+				c.Stat("streams_compared_after_a_transient_iterator_error", 1)
+			}
+		}
 	}
 	c.Stat("borders", int64(len(borders)))
 	c.Stat("borders_inside_a_keys_versions", int64(inside))
